@@ -12,7 +12,7 @@
 (* the specification's step" and "the logged state satisfies the            *)
 (* property's predicate".  Empty set = the event conforms.                 *)
 (***************************************************************************)
-EXTENDS Graphs
+EXTENDS Env
 
 Tag(c, x) == <<c, ToString(x)>>
 C(c) == <<c, "">>
@@ -350,6 +350,58 @@ SolvedClauses(T, prev, ev, post) ==
                        {C("C16:longest-path-differs-from-makespan")})
              ELSE {})
 
+(* --- C18: the Gymnasium environments ------------------------------------------ *)
+FirstOfType(L, t) == LET i == FirstIdx(L, LAMBDA x : x.t = t) IN i
+EnvObsClauses(T, eobs, post) ==
+    LET ri == FirstOfType(post.obs, "ResidualGraphUpdater")
+        ci == FirstOfType(post.obs, "CompositeFeatureObserver")
+    IN IF ri = 0 \/ ci = 0 THEN {C("M:env-without-updater-or-composite")} ELSE
+    LET r == post.obs[ri]  comp == post.obs[ci]
+        E == {<<r.edges[i][1], r.edges[i][2]>> : i \in DOMAIN r.edges}
+    IN If(~MaskOK(eobs.removed_nodes, r.nnodes, Rng(r.removed)), {C("C18:mask-differs-from-graph")})
+  \cup If(~EdgeIndexOK(eobs.edge_index, E), {C("C18:edge-index-differs-from-graph")})
+  \cup If(DOMAIN eobs.features # DOMAIN comp.f, {C("C18:feature-keys")})
+  \cup {Tag("C18:features-differ-from-observer", ft) :
+          ft \in {x \in DOMAIN eobs.features \cap DOMAIN comp.f : ~FeatureMatrixOK(eobs.features[x], comp.f[x])}}
+  \cup If(T.env.use_padding /\ ~eobs.in_space, {C("C18:observation-outside-declared-space")})
+  \cup If(T.env.use_padding /\ eobs.shapes # T.env.declared_shapes, {C("C18:observation-shape")})
+
+AsDispatch(T, prev, ev) ==
+    [a |-> "Dispatch", j |-> ev.j,
+     p |-> IF ev.j \in Jobs(T.inst) THEN prev.core.nxt[ev.j] ELSE 0,
+     m |-> MachineOfAction(T.inst, prev.core, ev.j, ev.m),
+     out |-> ev.out, notes |-> ev.notes, none |-> FALSE]
+RewardRecIdx(L) == FirstIdx(L, LAMBDA x : x.t \in {"MakespanReward", "IdleTimeReward"})
+EnvStepClauses(T, prev, ev, post) ==
+    LET I == T.inst  legal == LegalActions(I, prev.core) IN
+       DispatchClauses(T, prev, AsDispatch(T, prev, ev), post)
+  \cup If(\E a \in legal : ~ev.space_contains[a[1]][a[2] + 1], {C("C18:legal-action-outside-action-space")})
+  \cup If(\E a \in legal : ~InMultiDiscrete(a, T.env.nvec, T.env.start), {C("C18:legal-action-outside-declared-nvec")})
+  \cup (IF ev.out = "ok"
+        THEN EnvObsClauses(T, ev.eobs, post)
+          \cup If(ev.done # Complete(I, post.core.sched), {C("C18:done-flag")})
+          \cup If(ev.truncated, {C("C18:truncated")})
+          \cup (LET i == RewardRecIdx(post.obs) IN
+                If(i = 0 \/ (i # 0 /\ (post.obs[i].rewards = <<>> \/ ev.reward # post.obs[i].rewards[Len(post.obs[i].rewards)])),
+                   {C("C13:env-reward-differs-from-emitted")}))
+        ELSE EnvObsClauses(T, ev.eobs, post))
+EnvResetClauses(T, prev, ev, post) ==
+    IF ev.out # "ok" THEN {Tag("C18:reset-raised", ev.out)}
+    ELSE ResetClauses(T, prev, [a |-> "Reset", out |-> "ok", notes |-> ev.notes], post)
+         \cup EnvObsClauses(T, ev.eobs, post)
+EnvFreshRunClauses(T, prev, ev, post) ==
+       If(ev.core # prev.core, {C("C12:core-differs-from-fresh-run")})
+  \cup ObsListDiff("C12:differs-from-fresh-run", ev.obs, prev.obs)
+  \cup If(ev.eobs_here # ev.eobs_fresh, {C("C12:env-observation-differs-from-fresh-env")})
+(* first event of an episode of the multi-instance environment *)
+MultiResetClauses(T, prev, ev, post) ==
+    LET I == T.inst  g == T.env.generator IN
+       If(ev.episode # T.env.ctor, {C("C18:episode-config-differs-from-constructor")})
+  \cup If(~(Len(I) \in g.jobs[1]..g.jobs[2]) \/ NM(I) > g.machines[2]
+          \/ \E j \in Jobs(I) : ~(Len(I[j]) \in g.machines[1]..g.machines[2]), {C("C18:instance-outside-generator-ranges")})
+  \cup EnvObsClauses(T, ev.eobs, post)
+MultiResetFailedClauses(T, prev, ev, post) == {Tag("C18:multi-reset-raised", <<ev.out, ev.flexible_generator>>)}
+
 KindsOf(kinds, subs) == [i \in DOMAIN subs |-> IF subs[i] = 0 THEN "other" ELSE kinds[subs[i]]]
 
 CreateClauses(T, prev, ev, post) ==
@@ -388,6 +440,11 @@ DClauses(T, l, prev, post) ==
            [] ev.a = "SolverCall"  -> SolverCallClauses(T, prev, ev, post)
            [] ev.a = "BestFiltered" -> BestFilteredClauses(T, prev, ev, post)
            [] ev.a = "CpSat"       -> CpSatClauses(T, prev, ev, post)
+           [] ev.a = "EnvStep"     -> EnvStepClauses(T, prev, ev, post)
+           [] ev.a = "EnvReset"    -> EnvResetClauses(T, prev, ev, post)
+           [] ev.a = "EnvFreshRun" -> EnvFreshRunClauses(T, prev, ev, post)
+           [] ev.a = "MultiReset"  -> MultiResetClauses(T, prev, ev, post)
+           [] ev.a = "MultiResetFailed" -> MultiResetFailedClauses(T, prev, ev, post)
            [] ev.a = "Graph"       -> GraphClauses(T, prev, ev, post)
            [] ev.a = "Solved"      -> SolvedClauses(T, prev, ev, post)
            [] ev.a = "CreateObs"   -> CreateObsClauses(T, prev, ev, post)
